@@ -132,7 +132,7 @@ PROPS["C06"] = dict(
     level_note="Trusted: the harness queue model; 'does not block' is judged only while the gate is never released (definitive), 'blocks' by a 30 ms grace a correct implementation cannot fail. Domain B samples schedules.",
     rule="generated and enumerated histories",
     steps=[
-        dict(test="^TestC06_Controlled$", quick=dict(checks=300, timeout=900), thorough=dict(checks=2000, shards=10, timeout=3000)),
+        dict(test="^TestC06_Controlled$", quick=dict(checks=300, timeout=900), thorough=dict(checks=1000, shards=10, timeout=3000)),
         dict(test="^TestC06_Exhaustive$", quick=dict(timeout=900), thorough=dict(shards=6, timeout=3000)),
         dict(test="^TestC06_RandomOrder$", quick=dict(checks=30, timeout=900), thorough=dict(checks=200, shards=6, timeout=3000)),
         dict(test="^TestC06_ConcurrentDiscard$", quick=dict(checks=30, timeout=900), thorough=dict(checks=300, shards=4, timeout=3000)),
